@@ -53,8 +53,11 @@ def opC09 (a : Args) : Except String String := do
     let t ← need a "tgt" parseTgt
     let q1 : Array Rat ← vals a "q1"
     let q0 : Array Rat ← vals a "q0"
-    pure (showPairs [both "g1" (fun l => gformula l (qFun q1 q0) t.mem true),
-                     both "g0" (fun l => gformula l (qFun q1 q0) t.mem false)])
+    -- `pm=0`: predict_missing=False, rows with a missing outcome leave the target
+    let pm ← match a.get? "pm" with | some _ => need a "pm" parseBool | none => pure true
+    let tm : Row Rat → Bool := fun r => t.mem r && (pm || r.obs)
+    pure (showPairs [both "g1" (fun l => gformula l (qFun q1 q0) tm true),
+                     both "g0" (fun l => gformula l (qFun q1 q0) tm false)])
   | "gtrans" =>
     let g ← need a "gen" parseBool
     let q1 : Array Rat ← vals a "q1"
